@@ -85,12 +85,19 @@ def check_programs(tier, seed):
 
     try:
         reports = [[], ["AFP", "ACP", "AOP", "AOPSUM"], ["GP", "GL"], ["AFP", "ACP", "AOP", "AOPSUM", "GP", "GL", "SNVDP", "AFPRIOR"]]
+        # single prefixed fields: each INFO field must be computable on its own
+        singles = [["INFO/ACP"], ["INFO/AFP"], ["INFO/AOP"], ["INFO/AOPSUM"], ["FORMAT/AFP"], ["INFO/SNVDP"], ["FORMAT/GL"], ["FORMAT/GP"]]
         if tier == "quick":
             reports = [reports[0], reports[3]]
+            singles = [singles[(seed + i) % len(singles)] for i in range(3)] + [["INFO/ACP"]]
+        reports = reports + singles
         asm_base = ["mchap", "assemble", "--bam"] + bams + ["--targets", os.path.join(data, "simple.bed.gz"), "--variants", os.path.join(data, "simple.vcf.gz"), "--reference", ref, "--mcmc-steps", "300", "--mcmc-burn", "100", "--mcmc-seed", str(7 + seed)]
         jobs = []
         for rep in reports:
             rp = (["--report"] + [r for r in rep if r != "AFPRIOR"]) if rep else []
+            if rep in singles and rep != ["INFO/ACP"]:
+                jobs.append(("assemble", assemble.program, asm_base + ["--ploidy", "4"] + rp))
+                continue
             jobs.append(("assemble", assemble.program, asm_base + ["--ploidy", "4"] + rp))
             jobs.append(("assemble-pools", assemble.program, asm_base + ["--ploidy", os.path.join(data, "simple.pools-ploidy"), "--sample-pool", os.path.join(data, "simple.pools")] + rp))
             jobs.append(("assemble-strict", assemble.program, asm_base + ["--ploidy", "4", "--haplotype-posterior-threshold", "0.95", "--mapping-quality", "50"] + rp))
@@ -178,6 +185,12 @@ def check_programs(tier, seed):
                     diff = [i + 1 for i in range(min(len(a), len(refseq))) if a[i] != refseq[i]]
                     if len(a) != len(refseq) or (snvpos and not set(diff) <= set(snvpos)):
                         bad("rt/alt_differs_only_at_snvpos", inp, {"ALT": a, "diff": diff}, {"len": len(refseq), "SNVPOS": snvpos})
+                # INFO ACP sums to the total ploidy of the called samples (posterior allele counts)
+                if "ACP" in infod and infod["ACP"] not in (True, ".") and "NOA" not in flt and "AF0" not in flt:
+                    vals_ = [float(x) for x in infod["ACP"].split(",") if x != "."]
+                    tot_pl = sum(len(c.split(":")[keys.index("GT")].replace("|", "/").split("/")) for c in cols)
+                    if name.startswith("call") and abs(sum(vals_) - tot_pl) > 0.01 * max(1, len(vals_)):
+                        bad("rt/info_acp_sums_to_total_ploidy", inp, infod["ACP"], tot_pl)
                 # AC / AN / UAN / NS recomputed from the sample columns
                 counts = [0] * (n_alt + 1)
                 for g in gts:
